@@ -135,11 +135,11 @@ func containersRecord(m map[string]string) error {
 				r := rnd.Float64()
 				okCall := true
 				switch {
-				case size == 0 || r < pIns*0.7:
+				case (size == 0 && r < 0.5) || (size > 0 && r < pIns*0.7):
 					ev.Op, ev.Arg = "push", id*1000+k
 					okCall = guarded(func() { s.Push(ev.Arg) })
 					size++
-				case r < pIns:
+				case size == 0 || r < pIns:
 					ev.Op, ev.Arg, ev.Arg2 = "pushall", id*1000+k, -(id*1000 + k)
 					if rnd.Intn(2) == 0 {
 						// the elements come from a slice the caller goes on using: what is on the stack
